@@ -1,7 +1,7 @@
 SPECIFICATION Spec
 CONSTANTS
   NGood = 5
-  NFail = 19
+  NFail = 21
   MaxLen = 7
   MinFail = 1
 CONSTRAINT Emit
